@@ -126,6 +126,8 @@ impl MoveGenerator {
         player: Color,
     ) -> ChessMoveEffect {
         chess_move.apply(board).unwrap();
+        #[cfg(chess_verif)]
+        crate::verif::transient_board(board);
         let chess_move_effect = if player_is_in_checkmate(board, self, player) {
             ChessMoveEffect::Checkmate
         } else if player_is_in_check(board, self, player) {
@@ -446,6 +448,8 @@ fn remove_invalid_moves(
     // If it does, it's invalid.
     for chess_move in candidates.drain(..) {
         chess_move.apply(board).unwrap();
+        #[cfg(chess_verif)]
+        crate::verif::transient_board(board);
         let king = board.pieces(color).locate(Piece::King);
         let attacked_squares = targets.generate_attack_targets(board, color.opposite());
         chess_move.undo(board).unwrap();
